@@ -27,7 +27,7 @@ Fixpoint ninstr (its : items) : Z :=
   | IPoint _ r => 2 + ninstr r
   | IPad r => 1 + ninstr r
   | IBlock b r => ninstr b + ninstr r
-  | IFor parts late b r => hdr_n parts + 1 + ninstr b + 1 + ninstr r
+  | IFor parts late it b r => hdr_n parts + 1 + ninstr b + len it + 1 + ninstr r
   | IRepeat b c r => ninstr b + 2 * len c + 1 + ninstr r
   end.
 
@@ -46,11 +46,12 @@ Fixpoint ents (its : items) (pc r close : Z) : list entry :=
   | IPoint _ rest => ents rest (pc + 2) r close
   | IPad rest => ents rest (pc + 1) r close
   | IBlock b rest => ents b pc r (pc + ninstr b) ++ ents rest (pc + ninstr b) r close
-  | IFor parts late b rest =>
+  | IFor parts late it b rest =>
       let S := pc + hdr_n parts in
       let C := S + 1 + ninstr b in
-      mk_ents (for_hidden parts) S C r ++ mk_ents late (S + 1) C (r + len parts) ++
-      ents b (S + 1) (r + len parts + len late) C ++ ents rest (C + 1) r close
+      let C2 := C + len it + 1 in
+      mk_ents (for_hidden parts) S C2 r ++ mk_ents late (S + 1) C (r + len parts) ++
+      ents b (S + 1) (r + len parts + len late) C ++ ents rest C2 r close
   | IRepeat b c rest =>
       let C := pc + ninstr b + 2 * len c + 1 in
       ents b pc r C ++ ents rest C r close
@@ -62,7 +63,7 @@ Fixpoint nents (its : items) : nat :=
   | ILocal bs rest => List.length bs + nents rest
   | IPoint _ rest | IPad rest => nents rest
   | IBlock b rest => nents b + nents rest
-  | IFor parts late b rest => List.length parts + List.length late + nents b + nents rest
+  | IFor parts late _ b rest => List.length parts + List.length late + nents b + nents rest
   | IRepeat b _ rest => nents b + nents rest
   end%nat.
 
@@ -73,7 +74,7 @@ Fixpoint top_idx (its : items) (base : nat) : list nat :=
   | ILocal bs rest => seq base (List.length bs) ++ top_idx rest (base + List.length bs)
   | IPoint _ rest | IPad rest => top_idx rest base
   | IBlock b rest => top_idx rest (base + nents b)
-  | IFor parts late b rest => top_idx rest (base + List.length parts + List.length late + nents b)
+  | IFor parts late _ b rest => top_idx rest (base + List.length parts + List.length late + nents b)
   | IRepeat b _ rest => top_idx rest (base + nents b)
   end%nat.
 
@@ -84,7 +85,7 @@ Proof. induction bs; intros; simpl; auto. Qed.
 
 Lemma ents_length : forall its pc r c, List.length (ents its pc r c) = nents its.
 Proof.
-  induction its as [|bs r IHr|q r IHr|r IHr|b IHb r IHr|parts late b IHb r IHr|b IHb c r IHr];
+  induction its as [|bs r IHr|q r IHr|r IHr|b IHb r IHr|parts late it b IHb r IHr|b IHb c r IHr];
     intros pc r0 c0; cbn [ents nents]; rewrite ?app_length, ?mk_ents_length, ?IHb, ?IHr; auto.
   unfold for_hidden. rewrite map_length. rewrite !Nat.add_assoc. reflexivity.
 Qed.
@@ -96,21 +97,21 @@ Proof. intros. unfold crun. apply fold_left_app. Qed.
 Lemma crun_cons : forall e a s, crun (e :: a) s = crun a (cstep s e).
 Proof. reflexivity. Qed.
 
-Lemma crun_cpts : forall l tbl blks rt pc,
-  crun (cpts l) (Cst tbl blks rt pc) = Cst tbl blks rt (pc + 2 * len l).
+Lemma crun_cpts : forall l tbl blks rt pc kp,
+  crun (cpts l) (Cst tbl blks rt pc kp) = Cst tbl blks rt (pc + 2 * len l) kp.
 Proof.
   induction l as [|p l IH]; intros; unfold cpts in *; simpl flat_map.
   - unfold crun, len. simpl. f_equal. lia.
   - simpl app. rewrite !crun_cons. simpl cstep. rewrite IH. f_equal. unfold len. simpl List.length. lia.
 Qed.
 
-Lemma crun_regs : forall bs tbl off n dbg blks rt pc,
-  crun (map CReg bs) (Cst tbl (Block off n dbg :: blks) rt pc) =
+Lemma crun_regs : forall bs tbl off n dbg blks rt pc kp,
+  crun (map CReg bs) (Cst tbl (Block off n dbg :: blks) rt pc kp) =
   Cst (tbl ++ mk_ents bs pc 0 (off + n))
       (Block off (n + len bs) (dbg ++ seq (List.length tbl) (List.length bs)) :: blks)
-      (rt + len bs) pc.
+      (rt + len bs) pc kp.
 Proof.
-  induction bs as [|b bs IH]; intros tbl off n dbg blks rt pc.
+  induction bs as [|b bs IH]; intros tbl off n dbg blks rt pc kp.
   - unfold crun, len. simpl. rewrite !app_nil_r, !Z.add_0_r. reflexivity.
   - simpl map. rewrite crun_cons. simpl cstep. rewrite IH.
     simpl mk_ents. rewrite <- !app_assoc. simpl app.
@@ -129,23 +130,28 @@ Lemma set_nth_app_len {A} (t : list A) x y f :
   set_nth (t ++ x :: y) (List.length t) f = t ++ f x :: y.
 Proof. induction t as [|z t IH]; simpl; [reflexivity|]. rewrite IH. reflexivity. Qed.
 
-Lemma end_scope_seq : forall bs tbl s c r rest,
-  end_scope (seq (List.length tbl) (List.length bs)) c (tbl ++ mk_ents bs s 0 r ++ rest) =
+Lemma end_scope_seq_gen : forall bs tbl s c0 c r rest,
+  end_scope (seq (List.length tbl) (List.length bs)) c (tbl ++ mk_ents bs s c0 r ++ rest) =
   tbl ++ mk_ents bs s c r ++ rest.
 Proof.
-  induction bs as [|b bs IH]; intros tbl s c r rest; [reflexivity|].
+  induction bs as [|b bs IH]; intros tbl s c0 c r rest; [reflexivity|].
   simpl List.length. simpl seq. simpl end_scope. simpl mk_ents. simpl app.
   rewrite set_nth_app_len. unfold set_end at 1. simpl.
-  specialize (IH (tbl ++ [Entry (fst b) s c r (snd b)]) s c (r + 1) rest).
+  specialize (IH (tbl ++ [Entry (fst b) s c r (snd b)]) s c0 c (r + 1) rest).
   rewrite app_length in IH. simpl List.length in IH.
   replace (List.length tbl + 1)%nat with (S (List.length tbl)) in IH by lia.
   rewrite <- !app_assoc in IH. simpl app in IH. exact IH.
 Qed.
 
+Lemma end_scope_seq : forall bs tbl s c r rest,
+  end_scope (seq (List.length tbl) (List.length bs)) c (tbl ++ mk_ents bs s 0 r ++ rest) =
+  tbl ++ mk_ents bs s c r ++ rest.
+Proof. intros. apply end_scope_seq_gen. Qed.
+
 Lemma end_scope_ents : forall its tbl pc r c,
   end_scope (top_idx its (List.length tbl)) c (tbl ++ ents its pc r 0) = tbl ++ ents its pc r c.
 Proof.
-  induction its as [|bs r IHr|q r IHr|r IHr|b IHb r IHr|parts late b IHb r IHr|b IHb c0 r IHr];
+  induction its as [|bs r IHr|q r IHr|r IHr|b IHb r IHr|parts late it b IHb r IHr|b IHb c0 r IHr];
     intros tbl pc r0 c; cbn [ents top_idx].
   - reflexivity.
   - rewrite end_scope_app. rewrite end_scope_seq.
@@ -156,9 +162,9 @@ Proof.
   - specialize (IHr (tbl ++ ents b pc r0 (pc + ninstr b)) (pc + ninstr b) r0 c).
     rewrite app_length, ents_length in IHr. rewrite <- !app_assoc in IHr. exact IHr.
   - cbv zeta.
-    set (S := pc + hdr_n parts). set (C := S + 1 + ninstr b).
-    specialize (IHr (tbl ++ mk_ents (for_hidden parts) S C r0 ++ mk_ents late (S + 1) C (r0 + len parts) ++
-                     ents b (S + 1) (r0 + len parts + len late) C) (C + 1) r0 c).
+    set (S := pc + hdr_n parts). set (C := S + 1 + ninstr b). set (C2 := C + len it + 1).
+    specialize (IHr (tbl ++ mk_ents (for_hidden parts) S C2 r0 ++ mk_ents late (S + 1) C (r0 + len parts) ++
+                     ents b (S + 1) (r0 + len parts + len late) C) C2 r0 c).
     rewrite !app_length, !mk_ents_length, ents_length in IHr.
     unfold for_hidden in IHr at 1. rewrite map_length in IHr.
     rewrite <- !app_assoc in IHr.
@@ -214,18 +220,18 @@ Proof.
   unfold set_start at 1. simpl. f_equal. apply IH.
 Qed.
 
-Lemma crun_parts : forall parts tbl off n dbg blks rt pc,
+Lemma crun_parts : forall parts tbl off n dbg blks rt pc kp,
   crun (flat_map (fun x => CReg (fst x) :: CInstr None :: cpts (snd x)) parts)
-       (Cst tbl (Block off n dbg :: blks) rt pc) =
+       (Cst tbl (Block off n dbg :: blks) rt pc kp) =
   Cst (tbl ++ mk_parts parts pc (off + n))
       (Block off (n + len parts) (dbg ++ seq (List.length tbl) (List.length parts)) :: blks)
-      (rt + len parts) (pc + hdr_n parts).
+      (rt + len parts) (pc + hdr_n parts) kp.
 Proof.
-  induction parts as [|x ps IH]; intros tbl off n dbg blks rt pc.
+  induction parts as [|x ps IH]; intros tbl off n dbg blks rt pc kp.
   - cbn [flat_map mk_parts hdr_n List.length seq]. unfold crun. cbn [fold_left].
     rewrite len_nil, !app_nil_r, !Z.add_0_r. reflexivity.
   - cbn [flat_map app]. rewrite !crun_cons.
-    cbn [cstep c_tbl c_blocks c_regtop c_pc b_off b_n b_dbg].
+    cbn [cstep leave c_tbl c_blocks c_regtop c_pc c_keep b_off b_n b_dbg].
     rewrite crun_app, crun_cpts, IH.
     cbn [mk_parts hdr_n]. rewrite <- !app_assoc. cbn [app].
     rewrite app_length. cbn [List.length seq]. rewrite len_cons.
@@ -264,16 +270,31 @@ Qed.
 Lemma nloc_local : forall bs r, nloc (ILocal bs r) = len bs + nloc r.
 Proof. intros. unfold nloc. cbn [decls]. apply len_app. Qed.
 
+Lemma firstn_seq_app : forall a n (l : list nat), firstn n (seq a n ++ l) = seq a n.
+Proof.
+  intros. rewrite <- (seq_length n a) at 1. rewrite <- (Nat.add_0_r (List.length (seq a n))).
+  rewrite firstn_app_2. simpl. apply app_nil_r.
+Qed.
+
+Lemma crun_iter : forall it tbl blks rt pc kp,
+  crun (map (fun p => CInstr (Some p)) it) (Cst tbl blks rt pc kp) = Cst tbl blks rt (pc + len it) kp.
+Proof.
+  induction it as [|p l IH]; intros.
+  - unfold crun. cbn [map fold_left]. rewrite len_nil, Z.add_0_r. reflexivity.
+  - cbn [map]. rewrite crun_cons. cbn [cstep c_tbl c_blocks c_regtop c_pc c_keep]. rewrite IH, len_cons.
+    replace (pc + 1 + len l) with (pc + (1 + len l)) by lia. reflexivity.
+Qed.
+
 Lemma crun_compile : forall its tbl off n dbg blks pc,
-  crun (compile its) (Cst tbl (Block off n dbg :: blks) (off + n) pc) =
+  crun (compile its) (Cst tbl (Block off n dbg :: blks) (off + n) pc []) =
   Cst (tbl ++ ents its pc (off + n) 0)
       (Block off (n + nloc its) (dbg ++ top_idx its (List.length tbl)) :: blks)
-      (off + n + nloc its) (pc + ninstr its).
+      (off + n + nloc its) (pc + ninstr its) [].
 Proof.
-  induction its as [|bs r IHr|q r IHr|r IHr|b IHb r IHr|parts late b IHb r IHr|b IHb c r IHr];
+  induction its as [|bs r IHr|q r IHr|r IHr|b IHb r IHr|parts late it b IHb r IHr|b IHb c r IHr];
     intros tbl off n dbg blks pc; cbn [compile ents top_idx ninstr].
   - unfold crun, nloc. cbn [fold_left decls]. rewrite len_nil, !app_nil_r, !Z.add_0_r. reflexivity.
-  - rewrite crun_cons. cbn [cstep c_tbl c_blocks c_regtop c_pc].
+  - rewrite crun_cons. cbn [cstep leave c_tbl c_blocks c_regtop c_pc c_keep b_off b_n b_dbg].
     rewrite crun_app, crun_regs.
     replace (off + n + len bs) with (off + (n + len bs)) by lia.
     rewrite IHr. rewrite app_length, mk_ents_length. rewrite nloc_local. rewrite <- !app_assoc.
@@ -282,52 +303,59 @@ Proof.
     replace (pc + 1 + ninstr r) with (pc + (1 + ninstr r)) by lia.
     replace (off + (n + len bs)) with (off + n + len bs) by lia.
     reflexivity.
-  - rewrite !crun_cons. cbn [cstep c_tbl c_blocks c_regtop c_pc].
+  - rewrite !crun_cons. cbn [cstep leave c_tbl c_blocks c_regtop c_pc c_keep b_off b_n b_dbg].
     replace (pc + 1 + 1) with (pc + 2) by lia. rewrite IHr.
     replace (pc + 2 + ninstr r) with (pc + (2 + ninstr r)) by lia. reflexivity.
-  - rewrite !crun_cons. cbn [cstep c_tbl c_blocks c_regtop c_pc]. rewrite IHr.
+  - rewrite !crun_cons. cbn [cstep leave c_tbl c_blocks c_regtop c_pc c_keep b_off b_n b_dbg]. rewrite IHr.
     replace (pc + 1 + ninstr r) with (pc + (1 + ninstr r)) by lia. reflexivity.
-  - rewrite crun_cons. cbn [cstep c_tbl c_blocks c_regtop c_pc]. rewrite crun_app.
+  - rewrite crun_cons. cbn [cstep leave c_tbl c_blocks c_regtop c_pc c_keep b_off b_n b_dbg]. rewrite crun_app.
     replace (off + n) with (off + n + 0) at 2 by lia.
-    rewrite IHb. rewrite crun_cons. cbn [cstep c_tbl c_blocks c_regtop c_pc b_off b_n b_dbg app].
+    rewrite IHb. rewrite crun_cons. cbn [cstep leave c_tbl c_blocks c_regtop c_pc c_keep b_off b_n b_dbg app].
     rewrite end_scope_ents. rewrite IHr. rewrite app_length, ents_length. rewrite <- !app_assoc.
     replace (off + n + 0) with (off + n) by lia.
     replace (pc + ninstr b + ninstr r) with (pc + (ninstr b + ninstr r)) by lia.
     reflexivity.
-  - rewrite crun_cons. cbn [cstep c_tbl c_blocks c_regtop c_pc]. rewrite crun_app.
+  - rewrite crun_cons. cbn [cstep leave c_tbl c_blocks c_regtop c_pc c_keep b_off b_n b_dbg]. rewrite crun_app.
     rewrite crun_parts.
-    rewrite !crun_cons. cbn [cstep c_tbl c_blocks c_regtop c_pc].
+    rewrite !crun_cons. cbn [cstep leave c_tbl c_blocks c_regtop c_pc c_keep b_off b_n b_dbg].
     rewrite crun_app.
     (* StartLocalVarsHere resets the start of the hidden variables *)
     rewrite app_length, mk_parts_length.
     replace (List.length tbl + List.length parts - List.length parts)%nat with (List.length tbl) by lia.
     rewrite <- (app_nil_r (mk_parts parts pc (off + n + 0))).
-    rewrite <- (mk_parts_length parts pc (off + n + 0)) at 1.
+    rewrite <- (mk_parts_length parts pc (off + n + 0)) at 2.
     rewrite start_here_map, mk_parts_restart, app_nil_r.
     rewrite crun_regs. rewrite crun_app.
     replace (off + n + (0 + len parts + len late)) with (off + n + 0 + (0 + len parts + len late)) by lia.
     replace (off + n + len parts + len late) with (off + n + (0 + len parts + len late)) by lia.
     rewrite IHb.
-    rewrite !crun_cons. cbn [cstep c_tbl c_blocks c_regtop c_pc b_off b_n b_dbg].
+    rewrite crun_cons. cbn [cstep leave c_tbl c_blocks c_regtop c_pc c_keep b_off b_n b_dbg].
     rewrite <- !app_assoc. rewrite !app_nil_l.
     rewrite leave_for.
     2:{ unfold for_hidden. rewrite map_length. reflexivity. }
     2:{ rewrite app_length, mk_ents_length. reflexivity. }
     2:{ rewrite !app_length, !mk_ents_length. lia. }
+    rewrite firstn_seq_app.
+    rewrite crun_app, crun_iter. rewrite !crun_cons.
+    cbn [cstep leave c_tbl c_blocks c_regtop c_pc c_keep b_off b_n b_dbg].
+    (* the hidden variables end after the loop instruction *)
+    replace (List.length parts) with (List.length (for_hidden parts)) at 1
+      by (unfold for_hidden; rewrite map_length; reflexivity).
+    rewrite end_scope_seq_gen.
     rewrite IHr.
     rewrite !app_length, !mk_ents_length, ents_length.
     replace (List.length (for_hidden parts)) with (List.length parts) by (unfold for_hidden; rewrite map_length; reflexivity).
     rewrite <- !app_assoc.
     replace (off + n + 0) with (off + n) by lia.
     replace (off + n + (0 + len parts)) with (off + n + len parts) by lia.
-    replace (pc + hdr_n parts + 1 + ninstr b + 1 + ninstr r) with (pc + (hdr_n parts + 1 + ninstr b + 1 + ninstr r)) by lia.
+    replace (pc + hdr_n parts + 1 + ninstr b + len it + 1 + ninstr r) with (pc + (hdr_n parts + 1 + ninstr b + len it + 1 + ninstr r)) by lia.
     replace (List.length tbl + (List.length parts + (List.length late + nents b)))%nat
       with (List.length tbl + List.length parts + List.length late + nents b)%nat by lia.
     reflexivity.
-  - rewrite crun_cons. cbn [cstep c_tbl c_blocks c_regtop c_pc]. rewrite crun_app.
+  - rewrite crun_cons. cbn [cstep leave c_tbl c_blocks c_regtop c_pc c_keep b_off b_n b_dbg]. rewrite crun_app.
     replace (off + n) with (off + n + 0) at 2 by lia.
     rewrite IHb. rewrite crun_app, crun_cpts.
-    rewrite !crun_cons. cbn [cstep c_tbl c_blocks c_regtop c_pc b_off b_n b_dbg].
+    rewrite !crun_cons. cbn [cstep leave c_tbl c_blocks c_regtop c_pc c_keep b_off b_n b_dbg].
     rewrite !app_nil_l. rewrite end_scope_ents.
     rewrite IHr. rewrite app_length, ents_length. rewrite <- !app_assoc.
     replace (off + n + 0) with (off + n) by lia.
@@ -346,7 +374,7 @@ Proof.
   rewrite crun_app, crun_regs. rewrite crun_app.
   replace (0 + len (fn_env0 f)) with (0 + (0 + len (fn_env0 f))) at 2 by lia.
   rewrite crun_compile.
-  rewrite !crun_cons. cbn [cstep c_tbl c_blocks c_regtop c_pc b_off b_n b_dbg crun fold_left].
+  rewrite !crun_cons. cbn [cstep leave c_tbl c_blocks c_regtop c_pc c_keep b_off b_n b_dbg crun fold_left].
   rewrite !app_nil_l. rewrite mk_ents_length.
   rewrite end_scope_app.
   rewrite <- (app_nil_l (mk_ents (fn_env0 f) 0 0 (0 + 0) ++ _)).
@@ -407,16 +435,20 @@ Proof. induction parts as [|x ps IH]; cbn [hdr_n]; unfold len in *; lia. Qed.
 Lemma ninstr_nonneg : forall its, 0 <= ninstr its.
 Proof.
   induction its; cbn [ninstr]; try lia.
-  - pose proof (hdr_n_nonneg parts). lia.
+  - pose proof (hdr_n_nonneg parts). unfold len. lia.
   - unfold len. lia.
 Qed.
 
+Lemma instrs_iter : forall it, instrs (map (fun p => CInstr (Some p)) it) = len it.
+Proof. induction it as [|p l IH]; [reflexivity|]. cbn [map instrs]. rewrite IH, len_cons. reflexivity. Qed.
+
 Lemma instrs_compile : forall its, instrs (compile its) = ninstr its.
 Proof.
-  induction its as [|bs r IHr|q r IHr|r IHr|b IHb r IHr|parts late b IHb r IHr|b IHb c r IHr];
+  induction its as [|bs r IHr|q r IHr|r IHr|b IHb r IHr|parts late it b IHb r IHr|b IHb c r IHr];
     cbn [compile ninstr instrs]; rewrite ?instrs_app; cbn [instrs];
     rewrite ?instrs_app, ?instrs_regs, ?instrs_cpts, ?instrs_parts; cbn [instrs];
-    rewrite ?instrs_app, ?instrs_regs; cbn [instrs]; rewrite ?instrs_app; cbn [instrs]; try lia.
+    rewrite ?instrs_app, ?instrs_regs; cbn [instrs]; rewrite ?instrs_app, ?instrs_iter; cbn [instrs];
+    rewrite ?instrs_app, ?instrs_iter; cbn [instrs]; try lia.
 Qed.
 
 Lemma point_pc_app : forall a b pc p,
@@ -425,7 +457,7 @@ Lemma point_pc_app : forall a b pc p,
 Proof.
   induction a as [|e a IH]; intros b pc p.
   - simpl. rewrite Z.add_0_r. reflexivity.
-  - destruct e as [[q|]| | | |]; cbn [app point_pc instrs]; try (rewrite IH; reflexivity).
+  - destruct e as [[q|]| | | | | |]; cbn [app point_pc instrs]; try (rewrite IH; reflexivity).
     + destruct (q =? p); [reflexivity|]. rewrite IH. replace (pc + 1 + instrs a) with (pc + (1 + instrs a)) by lia. reflexivity.
     + rewrite IH. replace (pc + 1 + instrs a) with (pc + (1 + instrs a)) by lia. reflexivity.
 Qed.
@@ -446,6 +478,23 @@ Proof.
   - split; [reflexivity|]. unfold len. lia.
   - specialize (IH (pc + 1 + 1) p). cbn [orb].
     destruct (point_pc (flat_map (fun p0 : Z => [CInstr None; CInstr (Some p0)]) l) (pc + 1 + 1) p).
+    + destruct IH as [H1 H2]. split; [exact H1|lia].
+    + exact IH.
+Qed.
+
+Lemma point_pc_iter : forall l pc p,
+  match point_pc (map (fun p0 => CInstr (Some p0)) l) pc p with
+  | Some q => zmem p l = true /\ pc <= q < pc + len l
+  | None => zmem p l = false
+  end.
+Proof.
+  induction l as [|x l IH]; intros pc p; [reflexivity|].
+  cbn [map point_pc]. unfold zmem in *. cbn [existsb].
+  rewrite (Z.eqb_sym p x). rewrite len_cons.
+  destruct (x =? p).
+  - split; [reflexivity|]. unfold len. lia.
+  - specialize (IH (pc + 1) p). cbn [orb].
+    destruct (point_pc (map (fun p0 : Z => CInstr (Some p0)) l) (pc + 1) p).
     + destruct IH as [H1 H2]. split; [exact H1|lia].
     + exact IH.
 Qed.
@@ -484,7 +533,7 @@ Proof. intros. apply Forall_app. split; assumption. Qed.
 Lemma ents_starts : forall its pc r c,
   Forall (fun e => pc <= e_start e) (ents its pc r c).
 Proof.
-  induction its as [|bs r IHr|q r IHr|r IHr|b IHb r IHr|parts late b IHb r IHr|b IHb c0 r IHr];
+  induction its as [|bs r IHr|q r IHr|r IHr|b IHb r IHr|parts late it b IHb r IHr|b IHb c0 r IHr];
     intros pc r0 c; cbn [ents]; cbv zeta.
   - constructor.
   - apply Forall_app_intro; [apply mk_ents_Forall; intros; cbn [e_start e_end]; lia|].
@@ -493,7 +542,7 @@ Proof.
   - eapply Forall_impl; [|apply IHr]. cbn beta. intros; lia.
   - pose proof (ninstr_nonneg b).
     apply Forall_app_intro; [apply IHb|]. eapply Forall_impl; [|apply IHr]. cbn beta. intros; lia.
-  - pose proof (ninstr_nonneg b). pose proof (hdr_n_nonneg parts).
+  - pose proof (ninstr_nonneg b). pose proof (hdr_n_nonneg parts). assert (Hit : 0 <= len it) by (unfold len; lia).
     repeat apply Forall_app_intro.
     + apply mk_ents_Forall; intros; cbn [e_start e_end]; lia.
     + apply mk_ents_Forall; intros; cbn [e_start e_end]; lia.
@@ -506,7 +555,7 @@ Qed.
 Lemma ents_ends : forall its pc r c,
   pc + ninstr its <= c -> Forall (fun e => e_end e <= c) (ents its pc r c).
 Proof.
-  induction its as [|bs r IHr|q r IHr|r IHr|b IHb r IHr|parts late b IHb r IHr|b IHb c0 r IHr];
+  induction its as [|bs r IHr|q r IHr|r IHr|b IHb r IHr|parts late it b IHb r IHr|b IHb c0 r IHr];
     intros pc r0 c Hc; cbn [ents ninstr] in *; cbv zeta.
   - constructor.
   - apply Forall_app_intro; [apply mk_ents_Forall; intros; cbn [e_start e_end]; lia|]. apply IHr. lia.
@@ -515,7 +564,7 @@ Proof.
   - pose proof (ninstr_nonneg r).
     apply Forall_app_intro; [|apply IHr; lia].
     eapply Forall_impl; [|apply (IHb pc r0 (pc + ninstr b)); lia]. cbn beta. intros; lia.
-  - pose proof (ninstr_nonneg r).
+  - pose proof (ninstr_nonneg r). assert (Hit : 0 <= len it) by (unfold len; lia).
     repeat apply Forall_app_intro.
     + apply mk_ents_Forall; intros; cbn [e_start e_end]; lia.
     + apply mk_ents_Forall; intros; cbn [e_start e_end]; lia.
@@ -564,7 +613,7 @@ Lemma act_end : forall its pc r c q,
   map bind_of (act q (ents its pc r c)) = decls its /\
   map e_reg (act q (ents its pc r c)) = zseq r (List.length (decls its)).
 Proof.
-  induction its as [|bs r IHr|q0 r IHr|r IHr|b IHb r IHr|parts late b IHb r IHr|b IHb c0 r IHr];
+  induction its as [|bs r IHr|q0 r IHr|r IHr|b IHb r IHr|parts late it b IHb r IHr|b IHb c0 r IHr];
     intros pc r0 c q Hq; cbn [ents ninstr decls] in *; cbv zeta.
   - split; reflexivity.
   - pose proof (ninstr_nonneg r).
@@ -577,7 +626,7 @@ Proof.
     rewrite (act_none_end q (ents b pc r0 (pc + ninstr b))).
     2:{ eapply Forall_impl; [|apply ents_ends; lia]. cbn beta. intros; lia. }
     apply IHr. lia.
-  - pose proof (ninstr_nonneg r). pose proof (ninstr_nonneg b). pose proof (hdr_n_nonneg parts).
+  - pose proof (ninstr_nonneg r). pose proof (ninstr_nonneg b). pose proof (hdr_n_nonneg parts). assert (Hit : 0 <= len it) by (unfold len; lia).
     rewrite !act_app.
     rewrite (act_none_end q (mk_ents (for_hidden parts) _ _ _)) by (apply mk_ents_Forall; intros; cbn [e_start e_end]; lia).
     rewrite (act_none_end q (mk_ents late _ _ _)) by (apply mk_ents_Forall; intros; cbn [e_start e_end]; lia).
@@ -615,7 +664,7 @@ Lemma scope_ents : forall its env pc r c p,
   | None => scope_at env its p = None
   end.
 Proof.
-  induction its as [|bs r IHr|q0 r IHr|r IHr|b IHb r IHr|parts late b IHb r IHr|b IHb c0 r IHr];
+  induction its as [|bs r IHr|q0 r IHr|r IHr|b IHb r IHr|parts late it b IHb r IHr|b IHb c0 r IHr];
     intros env pc r0 c p Hc; unfold found in *; cbn [compile ninstr] in *.
   - reflexivity.
   - (* local *)
@@ -654,7 +703,7 @@ Proof.
       rewrite act_app, (ends_le b) by lia. auto.
   - (* for loop *)
     cbn [point_pc scope_at ents]; cbv zeta.
-    pose proof (ninstr_nonneg r). pose proof (ninstr_nonneg b). pose proof (hdr_n_nonneg parts).
+    pose proof (ninstr_nonneg r). pose proof (ninstr_nonneg b). pose proof (hdr_n_nonneg parts). assert (Hit : 0 <= len it) by (unfold len; lia).
     rewrite point_pc_app, instrs_parts.
     pose proof (point_pc_parts parts pc p) as Hh.
     destruct (point_pc (flat_map _ parts) pc p) as [q|].
@@ -684,14 +733,27 @@ Proof.
         replace (r0 + len parts + Z.of_nat (List.length late)) with (r0 + len parts + len late) by (unfold len; lia).
         reflexivity.
       * rewrite IHb. cbn [orelse].
-        replace (S + 1 + ninstr b + 1) with (C + 1) by (subst C; lia).
-        specialize (IHr env (C + 1) r0 c p ltac:(subst C S; lia)).
-        destruct (point_pc (compile r) (C + 1) p) as [q|]; [|exact IHr].
-        destruct IHr as (Hq & ext & E1 & E2 & E3). split; [subst C S; lia|]. exists ext.
-        rewrite !act_app.
-        rewrite (act_none_end q (mk_ents (for_hidden parts) _ _ _)) by (apply mk_ents_Forall; intros; cbn [e_start e_end]; lia).
-        rewrite (act_none_end q (mk_ents late _ _ _)) by (apply mk_ents_Forall; intros; cbn [e_start e_end]; lia).
-        rewrite (ends_le b) by (subst C; lia). auto.
+        set (C2 := C + len it + 1) in *.
+        rewrite point_pc_app, instrs_iter.
+        pose proof (point_pc_iter it C p) as Hp.
+        destruct (point_pc (map (fun p0 : Z => CInstr (Some p0)) it) C p) as [q|].
+        -- (* the loop instruction that calls the iterator: only the hidden variables are in scope *)
+           destruct Hp as [Hz Hq]. rewrite Hz. split; [subst C2 C S; lia|]. exists (for_hidden parts).
+           rewrite !act_app.
+           rewrite (act_mk_all q (for_hidden parts)) by (subst C2 C; lia).
+           rewrite (act_none_end q (mk_ents late _ _ _)) by (apply mk_ents_Forall; intros; cbn [e_start e_end]; subst C; lia).
+           rewrite (ends_le b) by (subst C; lia).
+           rewrite (starts_gt r) by (subst C2 C; lia).
+           rewrite !app_nil_r. rewrite bind_of_mk, reg_of_mk. repeat split; reflexivity.
+        -- rewrite Hp. cbn [point_pc].
+           replace (C + len it + 1) with C2 by (subst C2; lia).
+           specialize (IHr env C2 r0 c p ltac:(subst C2 C S; lia)).
+           destruct (point_pc (compile r) C2 p) as [q|]; [|exact IHr].
+           destruct IHr as (Hq & ext & E1 & E2 & E3). split; [subst C2 C S; lia|]. exists ext.
+           rewrite !act_app.
+           rewrite (act_none_end q (mk_ents (for_hidden parts) _ _ _)) by (apply mk_ents_Forall; intros; cbn [e_start e_end]; lia).
+           rewrite (act_none_end q (mk_ents late _ _ _)) by (apply mk_ents_Forall; intros; cbn [e_start e_end]; subst C2; lia).
+           rewrite (ends_le b) by (subst C2 C; lia). auto.
   - (* repeat *)
     cbn [point_pc scope_at ents]; cbv zeta.
     pose proof (ninstr_nonneg r). pose proof (ninstr_nonneg b). assert (0 <= len c0) by (unfold len; lia).
@@ -740,7 +802,7 @@ Qed.
 Lemma ents_starts_le : forall its pc r c,
   Forall (fun e => e_start e <= pc + ninstr its) (ents its pc r c).
 Proof.
-  induction its as [|bs r IHr|q r IHr|r IHr|b IHb r IHr|parts late b IHb r IHr|b IHb c0 r IHr];
+  induction its as [|bs r IHr|q r IHr|r IHr|b IHb r IHr|parts late it b IHb r IHr|b IHb c0 r IHr];
     intros pc r0 c; cbn [ents ninstr]; cbv zeta.
   - constructor.
   - pose proof (ninstr_nonneg r).
@@ -751,7 +813,7 @@ Proof.
   - pose proof (ninstr_nonneg r).
     apply Forall_app_intro; [eapply Forall_impl; [|apply IHb]; cbn beta; intros; lia|].
     eapply Forall_impl; [|apply IHr]. cbn beta. intros; lia.
-  - pose proof (ninstr_nonneg r). pose proof (ninstr_nonneg b). pose proof (hdr_n_nonneg parts).
+  - pose proof (ninstr_nonneg r). pose proof (ninstr_nonneg b). pose proof (hdr_n_nonneg parts). assert (Hit : 0 <= len it) by (unfold len; lia).
     repeat apply Forall_app_intro.
     + apply mk_ents_Forall; intros; cbn [e_start e_end]; lia.
     + apply mk_ents_Forall; intros; cbn [e_start e_end]; lia.
@@ -772,7 +834,7 @@ Qed.
 
 Lemma ents_sorted : forall its pc r c, StronglySorted le_start (ents its pc r c).
 Proof.
-  induction its as [|bs r IHr|q r IHr|r IHr|b IHb r IHr|parts late b IHb r IHr|b IHb c0 r IHr];
+  induction its as [|bs r IHr|q r IHr|r IHr|b IHb r IHr|parts late it b IHb r IHr|b IHb c0 r IHr];
     intros pc r0 c; cbn [ents]; cbv zeta.
   - constructor.
   - apply sorted_app; [apply mk_ents_sorted|apply IHr|].
